@@ -318,6 +318,29 @@ func candidatesUnfilteredRule(p *Prog, r *Report, id string) {
 		}
 		return true
 	})
+	// every candidate search gets the caller's ignoreCase flag as it is: a search that is switched off for some
+	// sources hides their candidates from the ambiguity test
+	if sf := p.SSAFunc(fi); sf != nil {
+		nCalls := 0
+		allInstrs(sf, true, func(in ssa.Instruction) {
+			c, ok := in.(ssa.CallInstruction)
+			if !ok || ssaCalleeObj(c) == nil || ssaCalleeObj(c).Name() != "findAllFields" {
+				return
+			}
+			nCalls++
+			site := fmt.Sprintf("xtype.FindField/findAllFields#%d ignoreCase", nCalls)
+			args := c.Common().Args
+			last := args[len(args)-1]
+			if prm, isPrm := last.(*ssa.Parameter); isPrm && types.Identical(prm.Type(), types.Typ[types.Bool]) {
+				r.OK(site, p.PosStr(in.Pos()), "receives FindField's ignoreCase parameter unchanged")
+			} else {
+				r.Bad(site, p.PosStr(in.Pos()), "the ignoreCase argument is not FindField's parameter itself: for some field sources the case-insensitive candidates are not collected, so an ambiguous match is taken silently instead of being reported")
+			}
+		})
+		if nCalls == 0 {
+			r.Bad("xtype.FindField/findAllFields", p.PosStr(fi.Decl.Pos()), "no findAllFields call found")
+		}
+	}
 	switch {
 	case bad != "":
 		r.Bad("xtype.FindField/candidates", p.PosStr(fi.Decl.Pos()), bad)
